@@ -60,7 +60,8 @@ PROPS = {
     "C02": {
         "module": "FBV.Props.C02",
         "theorems": ["FBV.pollLoop_outcome", "FBV.C02.read_frame_spec", "FBV.C02.read_frames_all", "FBV.C02.chunking_independent",
-                     "FBV.C02.terminal_cases", "FBV.C02.line_instance", "FBV.C02.crlf_instance", "FBV.C02.null_instance"],
+                     "FBV.C02.terminal_cases", "FBV.C02.line_instance", "FBV.C02.crlf_instance", "FBV.C02.null_instance",
+                     "FBV.readFrameC_refines", "FBV.readFrameC_spec"],
         "jobs": sync_jobs("rf"),
         "tie": "T2 whole read_frame scenarios: concrete model vs implementation call by call, and the specification evaluated on the implementation's results",
         "rule": RF_RULE,
@@ -68,8 +69,10 @@ PROPS = {
                        "provided ones do: C05) and any starting buffer: each read_frame call returns specNext(SIZE, deframer, unread++undelivered) — a function "
                        "in which no chunk schedule occurs — and leaves exactly what it names pending; repeated calls return the stream's frames in order then "
                        "the terminal outcome (InvalidData / Ok(None) / UnexpectedEof as the property states them). Proved on the abstract buffer (capacity, read "
-                       "offset, unread bytes) whose operations are the C01/C03 effects of the concrete methods; the concrete loop model and the abstract "
-                       "specification are both compared with the real read_frame over every composition of every small stream."),
+                       "offset, unread bytes); the CONCRETE loop model over the checked buffer methods (mem, read_index, write_index, both overflow-check settings, "
+                       "scribbling readers) is proved to be simulated step for step by the abstract loop (readFrameC_refines), so the specification holds of the "
+                       "concrete model too (readFrameC_spec); that concrete model is what the driver compares with the real read_frame call by call over every "
+                       "composition of every small stream."),
     },
     "C06": {
         "module": "FBV.Props.C06",
